@@ -346,6 +346,42 @@ def extract_pty(repo):
     return facts, notes
 
 
+def extract_pty_slave(repo):
+    """run_pty_task keeps no descriptor of the slave side while it waits: `<pair>.slave` is mentioned exactly twice in
+    the function - by `<pair>.slave.spawn_command(..)` and, after it and before the wait loop, by a body-level
+    `drop(<pair>.slave)` statement - and `<pair>` itself is only ever used through `.slave` / `.master` (not moved,
+    not forgotten).  While the authority holds the slave the master never reports end of output (35c2d72)."""
+    facts = {"slave_spawn_found": False, "slave_dropped_between_spawn_and_wait_loop": False, "slave_not_used_otherwise": False}
+    notes = []
+    p = os.path.join(repo, "crates", "ripd", "src", "tasks", "pty.rs")
+    if not os.path.exists(p):
+        return facts, ["crates/ripd/src/tasks/pty.rs not found"]
+    src = sanitize(open(p).read())
+    m = re.search(r"async\s+fn\s+run_pty_task\s*\(", src)
+    if not m:
+        return facts, ["async fn run_pty_task not found"]
+    sig_end = match_close(src, m.end() - 1)
+    b0 = src.find("{", sig_end)
+    body = src[b0 + 1:match_close(src, b0) - 1]
+    dep = depths(body)
+    pairs = [mm.group(1) for mm in re.finditer(r"\blet\s+(?:mut\s+)?(\w+)\s*=\s*match\s+\w+\s*\.\s*openpty\s*\(", body) if dep[mm.start()] == 0]
+    if len(pairs) != 1:
+        return facts, [f"run_pty_task: {len(pairs)} body-level `let <pair> = match <system>.openpty(..)` statement(s)"]
+    pair = re.escape(pairs[0])
+    spawns = [mm.start() for mm in re.finditer(r"\b" + pair + r"\s*\.\s*slave\s*\.\s*spawn_command\s*\(", body)]
+    loops = [mm.start() for mm in re.finditer(r"\bwhile\s+!\s*\(", body) if dep[mm.start()] == 0]
+    slave_uses = [mm.start() for mm in re.finditer(r"\b" + pair + r"\s*\.\s*slave\b", body)]
+    drops = [mm.start() for mm in re.finditer(r"\bdrop\s*\(\s*" + pair + r"\s*\.\s*slave\s*\)\s*;", body) if dep[mm.start()] == 0]
+    bare = [mm.start() for mm in re.finditer(r"\b" + pair + r"\b(?!\s*\.\s*(?:slave|master)\b)", body)][1:]
+    forget = re.search(r"\bforget\s*\(|\bManuallyDrop\b|\bleak\s*\(", body) is not None
+    notes.append(f"run_pty_task: pty pair `{pairs[0]}`: {len(spawns)} spawn_command, {len(slave_uses)} mention(s) of .slave, {len(drops)} body-level drop(.slave), {len(loops)} body-level wait loop(s), {len(bare)} other use(s) of the pair")
+    facts["slave_spawn_found"] = len(spawns) == 1 and dep[spawns[0]] == 0 and len(loops) == 1 and spawns[0] < loops[0]
+    if facts["slave_spawn_found"]:
+        facts["slave_dropped_between_spawn_and_wait_loop"] = len(drops) == 1 and spawns[0] < drops[0] < loops[0]
+        facts["slave_not_used_otherwise"] = len(slave_uses) == 2 and not bare and not forget
+    return facts, notes
+
+
 def main():
     ap = argparse.ArgumentParser()
     ap.add_argument("--repo", required=True)
@@ -354,6 +390,7 @@ def main():
     ok, ops, notes = extract(a.repo)
     sfacts, snotes = extract_shell(a.repo)
     pfacts, pnotes = extract_pty(a.repo)
+    vfacts, vnotes = extract_pty_slave(a.repo)
     lines = [
         "(* GENERATED by tools/gen/pump_join.py from crates/ripd/src/tasks/pipes.rs (run_pipes_task) on every ./check run",
         "   -- do not edit.  A committed copy serves as seed only.  The waiter's steps in source order (C17, T1). *)",
@@ -383,7 +420,7 @@ def main():
     lines.append("Lemma gen_shell_join_ok : gen_shell_captures_joined = true.")
     lines.append("Proof. vm_compute. reflexivity. Qed.")
     lines.append("")
-    lines.append("(* the PTY task (pty.rs run_pty_task, not runnable in the sandbox): the waiter itself emits the delta frames;")
+    lines.append("(* the PTY task (pty.rs run_pty_task): the waiter itself emits the delta frames;")
     lines.append("   its loop runs until the process has been waited for AND the reader thread's channel is closed, every")
     lines.append("   output emit sits inside that loop, the reader thread is awaited plainly before the terminal emit and no")
     lines.append("   spawned code can emit - nothing can follow the terminal frame by program order *)")
@@ -394,11 +431,22 @@ def main():
     lines.append("Definition gen_pty_waiter_drains_before_terminal : bool :=\n  " + " && ".join(f"gen_pty_{k}" for k in pfacts) + ".")
     lines.append("Lemma gen_pty_waiter_ok : gen_pty_waiter_drains_before_terminal = true.")
     lines.append("Proof. vm_compute. reflexivity. Qed.")
+    lines.append("")
+    lines.append("(* the PTY task ENDS: the authority's own descriptor of the slave side is dropped between the spawn and the wait")
+    lines.append("   loop (while it is open the master never reports end of output: /repo 35c2d72).  `gen_pty_keeps_slave` is the")
+    lines.append("   parameter of the PTY waiter model (Model/TaskLifecycle.v pstep); c17_pty_task_can_always_end_code is stated for it *)")
+    for n in vnotes:
+        lines.append("(* " + n.replace("(*", "( *").replace("*)", "* )") + " *)")
+    for k, v in vfacts.items():
+        lines.append(f"Definition gen_pty_{k} : bool := {'true' if v else 'false'}.")
+    lines.append("Definition gen_pty_keeps_slave : bool :=\n  negb (" + " && ".join(f"gen_pty_{k}" for k in vfacts) + ").")
+    lines.append("Lemma gen_pty_slave_ok : gen_pty_keeps_slave = false.")
+    lines.append("Proof. vm_compute. reflexivity. Qed.")
     os.makedirs(a.out, exist_ok=True)
     open(os.path.join(a.out, "PumpJoin.v"), "w").write("\n".join(lines) + "\n")
-    for n in notes + snotes + pnotes:
+    for n in notes + snotes + pnotes + vnotes:
         print(n)
-    print("ok:", ok, "waiter:", ops, "shell:", sfacts, "pty:", pfacts)
+    print("ok:", ok, "waiter:", ops, "shell:", sfacts, "pty:", pfacts, "pty slave:", vfacts)
     return 0
 
 
